@@ -19,3 +19,30 @@ package beacon
 //@   loop 0: invariant forall j int :: {records[j]} 0 <= j && j < len(records) ==> records[j].Beacon.NumInState == len(records[j].Timestamps) && records[j].Beacon.FirstIdInState == (len(records[j].Timestamps) > 0 ? records[j].Timestamps[0].Id : 0)
 //@   loop 0: invariant forall j int :: {records[j]} 0 <= j && j < len(records) ==> records[j].Beacon.BeaconId == beacons[j].BeaconId && records[j].Beacon.Owner == beacons[j].Owner && records[j].Beacon.LastTimestampId == beacons[j].LastTimestampId && records[j].Beacon.Moniker == beacons[j].Moniker
 //@   loop 0: invariant forall j int :: {records[j]} 0 <= j && j < len(records) && blimHas(bea_store, records[j].Beacon.BeaconId) ==> records[j].InStateLimit == blimGet(bea_store, records[j].Beacon.BeaconId)
+
+// Genesis import (C15): on a store without registrations, limits and timestamps, every registration of the document
+// is stored byte-for-byte as given together with its limit, every listed timestamp is stored under (id, timestamp id)
+// of its registration, timestamps appear only under imported ids, and the next id is the document's.  Document
+// preconditions (stated, not checked by the code): registration ids pairwise distinct, timestamp ids pairwise distinct
+// within a registration.
+//@ func InitGenesis(ctx, keeper, data) (updates)
+//@   props C15
+//@   requires forall i int :: {bea_store[kBeacon(i)]} {bea_store[kBLimit(i)]} !bcHas(bea_store, i) && !blimHas(bea_store, i)
+//@   requires forall i int, h int :: {bea_store[kTs(i, h)]} !tsHas(bea_store, i, h)
+//@   requires forall i int, j int :: {data.RegisteredBeacons[i], data.RegisteredBeacons[j]} 0 <= i && i < j && j < len(data.RegisteredBeacons) ==> data.RegisteredBeacons[i].Beacon.BeaconId != data.RegisteredBeacons[j].Beacon.BeaconId
+//@   requires forall j int, a int, b int :: {data.RegisteredBeacons[j].Timestamps[a], data.RegisteredBeacons[j].Timestamps[b]} 0 <= j && j < len(data.RegisteredBeacons) && 0 <= a && a < b && b < len(data.RegisteredBeacons[j].Timestamps) ==> data.RegisteredBeacons[j].Timestamps[a].Id != data.RegisteredBeacons[j].Timestamps[b].Id
+//@   let recs := data.RegisteredBeacons
+//@   modifies bea_store
+//@   ensures @timestamps_imported forall j int, a int :: {recs[j].Timestamps[a]} 0 <= j && j < len(recs) && 0 <= a && a < len(recs[j].Timestamps) ==> bea_store[kTs(recs[j].Beacon.BeaconId, recs[j].Timestamps[a].Id)] == tsBytes(mkTs(recs[j].Timestamps[a].Id, recs[j].Timestamps[a].T, recs[j].Timestamps[a].H))
+//@   ensures @registrations_imported forall j int :: {recs[j]} 0 <= j && j < len(recs) ==> bea_store[kBeacon(recs[j].Beacon.BeaconId)] == bcBytes(recs[j].Beacon) && bea_store[kBLimit(recs[j].Beacon.BeaconId)] == blimBytes(recs[j].Beacon.BeaconId, recs[j].InStateLimit)
+//@   ensures @nothing_else_registered forall i int :: {bea_store[kBeacon(i)]} {bea_store[kBLimit(i)]} bcHas(bea_store, i) || blimHas(bea_store, i) ==> exists j int :: 0 <= j && j < len(recs) && recs[j].Beacon.BeaconId == i
+//@   ensures @timestamps_only_under_imported_ids forall i int, h int :: {bea_store[kTs(i, h)]} tsHas(bea_store, i, h) ==> exists j int :: 0 <= j && j < len(recs) && recs[j].Beacon.BeaconId == i
+//@   ensures @next_id beaHighestIs(bea_store, data.StartingBeaconId)
+//@   loop 0: invariant 0 - 1 <= rangeindex && rangeindex < len(recs) && beaHighestIs(bea_store, data.StartingBeaconId)
+//@   loop 0: invariant forall j int :: {recs[j]} 0 <= j && j <= rangeindex ==> bea_store[kBeacon(recs[j].Beacon.BeaconId)] == bcBytes(recs[j].Beacon) && bea_store[kBLimit(recs[j].Beacon.BeaconId)] == blimBytes(recs[j].Beacon.BeaconId, recs[j].InStateLimit)
+//@   loop 0: invariant forall i int :: {bea_store[kBeacon(i)]} {bea_store[kBLimit(i)]} bcHas(bea_store, i) || blimHas(bea_store, i) ==> exists j int :: 0 <= j && j <= rangeindex && recs[j].Beacon.BeaconId == i
+//@   loop 0: invariant forall i int, h int :: {bea_store[kTs(i, h)]} tsHas(bea_store, i, h) ==> exists j int :: 0 <= j && j <= rangeindex && recs[j].Beacon.BeaconId == i
+//@   loop 0: invariant forall k `beacon.Key` :: {bea_store[k]} !isTsKey(k) && !isBeaconKey(k) && !isBLimitKey(k) ==> bea_store[k] == at_loop_entry(bea_store)[k]
+//@   loop 0: invariant forall j int, a int :: {recs[j].Timestamps[a]} 0 <= j && j <= rangeindex && 0 <= a && a < len(recs[j].Timestamps) ==> bea_store[kTs(recs[j].Beacon.BeaconId, recs[j].Timestamps[a].Id)] == tsBytes(mkTs(recs[j].Timestamps[a].Id, recs[j].Timestamps[a].T, recs[j].Timestamps[a].H))
+//@   loop 1: invariant rangeindex < len(record.Timestamps) && forall a int :: {record.Timestamps[a]} 0 <= a && a <= rangeindex ==> bea_store[kTs(beacon.BeaconId, record.Timestamps[a].Id)] == tsBytes(mkTs(record.Timestamps[a].Id, record.Timestamps[a].T, record.Timestamps[a].H))
+//@   loop 1: invariant 0 - 1 <= rangeindex && forall k `beacon.Key` :: {bea_store[k]} !(isTsKey(k) && tsKeyId(k) == beacon.BeaconId) ==> bea_store[k] == at_loop_entry(bea_store)[k]
